@@ -1,3 +1,152 @@
 package main
 
-func installHooks() {}
+import (
+	"bufio"
+	"encoding/json"
+	"fmt"
+	"net"
+	"os"
+	"strings"
+	"sync"
+	"sync/atomic"
+
+	"github.com/omec-project/upf-epc/pfcpiface"
+)
+
+// hooks is the agent-side end of the control channel: it reports scheduling points, parks
+// goroutines at gated points until the harness releases them, and answers snapshot requests.
+type hooks struct {
+	conn   net.Conn
+	wmu    sync.Mutex
+	seq    int64
+	mu     sync.Mutex
+	gates  map[string]bool
+	parked map[int64]chan struct{}
+	report bool
+	iface  atomic.Value // *pfcpiface.PFCPIface
+}
+
+func installHooks() *hooks {
+	path := os.Getenv("VERIF_CTL")
+	if path == "" {
+		return nil
+	}
+
+	c, err := net.Dial("unix", path)
+	if err != nil {
+		fmt.Fprintln(os.Stderr, "VERIF-AGENT: cannot connect control socket:", err)
+		return nil
+	}
+
+	h := &hooks{conn: c, gates: map[string]bool{}, parked: map[int64]chan struct{}{}}
+	pfcpiface.VerifPoint = h.point
+
+	go h.serve()
+
+	return h
+}
+
+func (h *hooks) setIface(p *pfcpiface.PFCPIface) { h.iface.Store(p) }
+
+func (h *hooks) send(s string) {
+	h.wmu.Lock()
+	defer h.wmu.Unlock()
+	_, _ = h.conn.Write([]byte(s + "\n"))
+}
+
+func (h *hooks) point(name string, args ...interface{}) {
+	h.mu.Lock()
+	gated := h.gates[name] || h.gates["*"]
+	report := h.report || gated
+
+	if !report {
+		h.mu.Unlock()
+		return
+	}
+
+	seq := atomic.AddInt64(&h.seq, 1)
+
+	var ch chan struct{}
+	if gated {
+		ch = make(chan struct{})
+		h.parked[seq] = ch
+	}
+	h.mu.Unlock()
+
+	g := 0
+	if gated {
+		g = 1
+	}
+
+	h.send(fmt.Sprintf("EV %d %d %s %s", seq, g, name, strings.TrimSpace(fmt.Sprintln(args...))))
+
+	if gated {
+		<-ch
+	}
+}
+
+func (h *hooks) serve() {
+	r := bufio.NewReader(h.conn)
+
+	for {
+		line, err := r.ReadString('\n')
+		if err != nil {
+			// harness gone: release everything so that the process can be torn down
+			h.mu.Lock()
+			h.gates = map[string]bool{}
+			for k, ch := range h.parked {
+				close(ch)
+				delete(h.parked, k)
+			}
+			h.mu.Unlock()
+
+			return
+		}
+
+		f := strings.Fields(line)
+		if len(f) == 0 {
+			continue
+		}
+
+		switch f[0] {
+		case "REPORT":
+			h.mu.Lock()
+			h.report = len(f) > 1 && f[1] == "1"
+			h.mu.Unlock()
+		case "GATE":
+			if len(f) > 1 {
+				h.mu.Lock()
+				h.gates[f[1]] = true
+				h.mu.Unlock()
+			}
+		case "UNGATE":
+			if len(f) > 1 {
+				h.mu.Lock()
+				delete(h.gates, f[1])
+				h.mu.Unlock()
+			}
+		case "GO":
+			var seq int64
+			if len(f) > 1 {
+				fmt.Sscanf(f[1], "%d", &seq)
+			}
+
+			h.mu.Lock()
+			if ch, ok := h.parked[seq]; ok {
+				close(ch)
+				delete(h.parked, seq)
+			}
+			h.mu.Unlock()
+		case "SNAP":
+			out := map[string]interface{}{}
+			if p, ok := h.iface.Load().(*pfcpiface.PFCPIface); ok && p != nil {
+				out = p.VerifSnapshot()
+			}
+
+			b, _ := json.Marshal(out)
+			h.send("SNAP " + string(b))
+		default:
+			tune(f)
+		}
+	}
+}
